@@ -105,6 +105,9 @@ func tryReplay(E *Engine, cfg *PropConfig, o *Obl, dir string) (string, bool, st
 		all = append(all, w.terms...)
 	}
 	var vals []string
+	if len(all) > 0 && o.Model == "" {
+		return "", false, "the solvers gave no model for this obligation (" + o.Status + "), and the replay template needs input values"
+	}
 	if len(all) > 0 {
 		q := o.query(false)
 		q = "(set-option :produce-models true)\n" + q + "(get-value (" + strings.Join(all, " ") + "))\n"
